@@ -116,6 +116,17 @@ def run_case(case, rec):
                         d = diff(Bag(want), got)
                         if d:
                             rec.violation('hypernym-paths-expanded', f'expand={label}: {key}.hypernym_paths(): ' + fmt(d))
+            # the dependent lexicon selected together with its provider: the default expand set is still made of the
+            # declared, installed dependencies (being selected as well does not take a lexicon out of it)
+            with warnings.catch_warnings():
+                warnings.simplefilter('ignore')
+                w2 = wn.Wordnet('l:1 e:1')
+            want2 = ['e:1'] if declare else []
+            got2 = sorted({x.specifier() for x in w2.expanded_lexicons()})
+            rec.event('expand.both-selected')
+            if got2 != want2:
+                rec.violation('expanded-lexicons', f"Wordnet('l:1 e:1') (dependency declared: {declare}): expanded_lexicons() = {got2}, model {want2}")
+            compare(rec, m, ['l:1', 'e:1'], expand=want2, label='C12 dependent and provider selected together', quirks=QUIRKS)
             # an unrestricted Wordnet expands over all lexicons
             w = wn.Wordnet()
             if sorted(x.specifier() for x in w.expanded_lexicons()) != sorted(m.lex):
